@@ -1,11 +1,13 @@
 //! C15 — reward accrual is proportional to holdings and independent of others' actions
 //! (single-run reference ledger; the relational twins live in the reward-world driver).
 
+use crate::chain::World;
 use crate::mon::*;
 use crate::monitors::c14::reward_updates_in;
 use crate::ops::*;
 use crate::rng::Rng;
-use crate::snap::Snap;
+use crate::setup::*;
+use crate::snap::{self, Snap};
 use cosmwasm_std::Uint512;
 use std::collections::BTreeMap;
 
@@ -22,6 +24,217 @@ pub struct C15 {
     /// truncation allowance per holder, same unit
     eps: BTreeMap<String, Uint512>,
     pub updates: u64,
+    /// initial world and the recorded operations, for the relational twins run at the end of the history
+    w0: Option<World>,
+    ops: Vec<(Op, bool)>,
+}
+
+const OBSERVED: &str = "alice";
+const OBSERVED_2: &str = "alicetwo";
+
+fn involves(op: &Op, who: &str) -> bool {
+    match op {
+        Op::Mint { to, sender, .. } => to == who || sender == who,
+        Op::Transfer { from, to, .. } => from == who || to == who,
+        Op::SendDummy { from, .. } => from == who,
+        Op::IncreaseAllowance { owner, spender, .. } | Op::DecreaseAllowance { owner, spender, .. } => owner == who || spender == who,
+        Op::TransferFrom { spender, owner, to, .. } => spender == who || owner == who || to == who,
+        Op::BurnFrom { spender, owner, .. } => spender == who || owner == who,
+        Op::Burn { user, .. } => user == who,
+        Op::ClaimRewards { user, recipient } => user == who || recipient.as_deref() == Some(who),
+        _ => false,
+    }
+}
+
+fn is_update(op: &Op) -> bool {
+    matches!(op, Op::Raw { contract, msg, .. } if contract == REWARD && msg.starts_with("{\"update_global_index\""))
+}
+
+fn is_fixed(op: &Op) -> bool {
+    // operations that stay where they are in every twin: updates, deliveries, clock moves, anything of the observed holder
+    is_update(op) || matches!(op, Op::Donate { .. } | Op::Advance { .. }) || involves(op, OBSERVED)
+}
+
+fn changes_balances(op: &Op) -> bool {
+    matches!(op, Op::Mint { .. } | Op::Transfer { .. } | Op::SendDummy { .. } | Op::TransferFrom { .. } | Op::BurnFrom { .. } | Op::Burn { .. })
+}
+
+/// what the observed holder has earned so far: accrued (1e-18 units) + everything already paid out to anybody on its claims
+fn earned(w: &World, who: &[&str], claimed: u128) -> Uint512 {
+    let s = snap::take(w);
+    let mut t = Uint512::from(claimed) * e18();
+    for a in who {
+        t += accrued_of(&s, a);
+    }
+    t
+}
+
+fn replay(w0: &World, ops: &[Op], who: &[&str]) -> (Uint512, Vec<bool>, u128) {
+    let mut w = w0.clone();
+    let mut oks = vec![];
+    let mut claimed = 0u128;
+    for op in ops {
+        let before = w.bal(REWARD, KUSD);
+        let r = op.apply(&mut w);
+        if let Op::ClaimRewards { user, .. } = op {
+            if r.ok() && who.contains(&user.as_str()) {
+                claimed += before - w.bal(REWARD, KUSD);
+            }
+        }
+        oks.push(r.ok());
+    }
+    let supply = snap::take(&w).bsei.supply;
+    (earned(&w, who, claimed), oks, supply)
+}
+
+impl C15 {
+    fn twins(&self, rng: &mut Rng, out: &mut Out) {
+        let w0 = match &self.w0 {
+            Some(w) => w,
+            None => return,
+        };
+        let base_ops: Vec<Op> = self.ops.iter().map(|x| x.0.clone()).collect();
+        if !base_ops.iter().any(|o| involves(o, OBSERVED)) || !base_ops.iter().any(is_update) {
+            return;
+        }
+        let (base_earned, base_oks, _) = replay(w0, &base_ops, &[OBSERVED]);
+        // (a) independent operations of other holders in another order: adjacent operations with disjoint sets of
+        // participants are swapped at random inside each segment between two index updates
+        {
+            let parts = |o: &Op| -> Vec<String> {
+                match o {
+                    Op::Mint { to, sender, .. } => vec![to.clone(), sender.clone()],
+                    Op::Transfer { from, to, .. } => vec![from.clone(), to.clone()],
+                    Op::SendDummy { from, .. } => vec![from.clone(), DUMMY.to_string()],
+                    Op::IncreaseAllowance { owner, spender, .. } | Op::DecreaseAllowance { owner, spender, .. } => vec![owner.clone(), spender.clone()],
+                    Op::TransferFrom { spender, owner, to, .. } => vec![spender.clone(), owner.clone(), to.clone()],
+                    Op::BurnFrom { spender, owner, .. } => vec![spender.clone(), owner.clone()],
+                    Op::Burn { user, .. } => vec![user.clone()],
+                    Op::ClaimRewards { user, recipient } => vec![user.clone(), recipient.clone().unwrap_or_default()],
+                    _ => vec![],
+                }
+            };
+            let mut t = base_ops.clone();
+            let mut swaps = 0;
+            for _round in 0..3 {
+                let mut i = 0;
+                while i + 1 < t.len() {
+                    if !is_fixed(&t[i]) && !is_fixed(&t[i + 1]) && rng.chance(1, 2) {
+                        let (pa, pb) = (parts(&t[i]), parts(&t[i + 1]));
+                        if !pa.is_empty() && !pb.is_empty() && !pa.iter().any(|x| pb.contains(x)) {
+                            t.swap(i, i + 1);
+                            swaps += 1;
+                            i += 1;
+                        }
+                    }
+                    i += 1;
+                }
+            }
+            if swaps > 0 {
+                let (e, oks, _) = replay(w0, &t, &[OBSERVED]);
+                let n_ok_base = base_oks.iter().filter(|x| **x).count();
+                let n_ok = oks.iter().filter(|x| **x).count();
+                if n_ok == n_ok_base {
+                    out.count("c15.twins_reordered_compared");
+                    if e != base_earned {
+                        out.violation(P, "independent_of_others_order", format!("{} earned {} e-18 in the recorded history but {} e-18 when {} pairs of independent operations of other holders are swapped", OBSERVED, base_earned, e, swaps));
+                        return;
+                    }
+                } else {
+                    out.count("c15.twins_reordered_discarded");
+                }
+            }
+        }
+        // (b) other holders' operations that do not move balances removed
+        {
+            let t: Vec<Op> = base_ops.iter().filter(|o| is_fixed(o) || !matches!(o, Op::ClaimRewards { .. })).cloned().collect();
+            if t.len() < base_ops.len() {
+                let (e, _, _) = replay(w0, &t, &[OBSERVED]);
+                out.count("c15.twins_others_claims_removed_compared");
+                if e != base_earned {
+                    out.violation(P, "independent_of_others_actions", format!("{} earned {} e-18 in the recorded history but {} e-18 when other holders' reward claims are removed", OBSERVED, base_earned, e));
+                    return;
+                }
+            }
+        }
+        // (c) the observed position split over two accounts
+        {
+            // base': the recorded history without the observed holder's allowance business (not splittable)
+            let keep = |o: &Op| -> bool {
+                !(involves(o, OBSERVED) && matches!(o, Op::IncreaseAllowance { .. } | Op::DecreaseAllowance { .. } | Op::TransferFrom { .. } | Op::BurnFrom { .. }))
+            };
+            let b: Vec<Op> = base_ops.iter().filter(|o| keep(o)).cloned().collect();
+            let (e1, _, supply1) = replay(w0, &b, &[OBSERVED]);
+            // twin, executed step by step so that outflows can be drawn from the first account first
+            let mut w = w0.clone();
+            let mut claimed = 0u128;
+            for op in b.iter() {
+                let bal = |w: &World, a: &str| -> u128 {
+                    w.q::<cw20::BalanceResponse, _>(BSEI, &cw20::Cw20QueryMsg::Balance { address: a.to_string() }).map(|x| x.balance.u128()).unwrap_or(0)
+                };
+                let mut todo: Vec<Op> = vec![];
+                match op {
+                    Op::Mint { tok, sender, to, amount } if to == OBSERVED => {
+                        let h = amount / 2;
+                        if h > 0 {
+                            todo.push(Op::Mint { tok: *tok, sender: sender.clone(), to: OBSERVED.into(), amount: h });
+                        }
+                        todo.push(Op::Mint { tok: *tok, sender: sender.clone(), to: OBSERVED_2.into(), amount: amount - h });
+                    }
+                    Op::Transfer { tok, from, to, amount } if from == OBSERVED && to != OBSERVED => {
+                        let (b1, b2) = (bal(&w, OBSERVED), bal(&w, OBSERVED_2));
+                        if *amount <= b1 + b2 && *amount > 0 {
+                            let p1 = (*amount).min(b1);
+                            if p1 > 0 {
+                                todo.push(Op::Transfer { tok: *tok, from: OBSERVED.into(), to: to.clone(), amount: p1 });
+                            }
+                            if amount - p1 > 0 {
+                                todo.push(Op::Transfer { tok: *tok, from: OBSERVED_2.into(), to: to.clone(), amount: amount - p1 });
+                            }
+                        }
+                    }
+                    Op::Transfer { from, to, .. } if from == OBSERVED && to == OBSERVED => {}
+                    Op::SendDummy { tok, from, amount } if from == OBSERVED => {
+                        let (b1, b2) = (bal(&w, OBSERVED), bal(&w, OBSERVED_2));
+                        if *amount <= b1 + b2 && *amount > 0 {
+                            let p1 = (*amount).min(b1);
+                            if p1 > 0 {
+                                todo.push(Op::SendDummy { tok: *tok, from: OBSERVED.into(), amount: p1 });
+                            }
+                            if amount - p1 > 0 {
+                                todo.push(Op::SendDummy { tok: *tok, from: OBSERVED_2.into(), amount: amount - p1 });
+                            }
+                        }
+                    }
+                    Op::ClaimRewards { user, recipient } if user == OBSERVED => {
+                        let rcp = recipient.clone().or(Some(OBSERVED.to_string()));
+                        todo.push(Op::ClaimRewards { user: OBSERVED.into(), recipient: rcp.clone() });
+                        todo.push(Op::ClaimRewards { user: OBSERVED_2.into(), recipient: rcp });
+                    }
+                    other => todo.push(other.clone()),
+                }
+                for o in todo {
+                    let before = w.bal(REWARD, KUSD);
+                    let r = o.apply(&mut w);
+                    if let Op::ClaimRewards { user, .. } = &o {
+                        if r.ok() && (user == OBSERVED || user == OBSERVED_2) {
+                            claimed += before - w.bal(REWARD, KUSD);
+                        }
+                    }
+                }
+            }
+            let supply2 = snap::take(&w).bsei.supply;
+            if supply1 == supply2 {
+                let e2 = earned(&w, &[OBSERVED, OBSERVED_2], claimed);
+                out.count("c15.twins_split_compared");
+                if e2 != e1 {
+                    out.violation(P, "independent_of_account_split", format!("{} earned {} e-18 with one account but {} e-18 with the same position split over two accounts", OBSERVED, e1, e2));
+                }
+            } else {
+                out.count("c15.twins_split_discarded");
+            }
+        }
+    }
 }
 
 pub fn accrued_of(s: &Snap, a: &str) -> Uint512 {
@@ -51,7 +264,16 @@ impl C15 {
 }
 
 impl Monitor for C15 {
+    fn on_start(&mut self, w: &World, _s: &Snap, _cfg: &Cfg, _out: &mut Out) {
+        self.w0 = Some(w.clone());
+    }
+
+    fn on_end(&mut self, _w: &World, _s: &Snap, _cfg: &Cfg, rng: &mut Rng, out: &mut Out) {
+        self.twins(rng, out);
+    }
+
     fn on_step(&mut self, c: &Ctx, _rng: &mut Rng, out: &mut Out) {
+        self.ops.push((c.op.clone(), c.res.ok()));
         let (pre, post) = (c.pre, c.post);
         if c.res.ok() {
             if reward_updates_in(c) > 0 && pre.reward_total_balance > 0 {
